@@ -346,4 +346,33 @@ def checkTerm (params lines : List String) : CaseResult := Id.run do
     r := { r with specs := s!"ebg_instance_never_completes: winner {w} (terminal alternative: {term}), the instance does not complete" :: r.specs }
   return { r with nontrivial := true }
 
+/-- Family `c06burst`: the decisive event at the end of a burst of events that decide nothing, under back-pressure; params
+`k w n g`. The plain C06 predicate: exactly one determination, exactly the task of alternative `w` requested, the burst
+returns, the instance completes. -/
+def checkBurst (params lines : List String) : CaseResult := Id.run do
+  let w := (params.getD 1 "0").toNat?.getD 0
+  let mut r : CaseResult := {}
+  let mut determ := 0
+  let mut tasks : List String := []
+  let mut done := ""
+  for ln in lines do
+    match words ln with
+    | ["c06burst", "done", b] => done := b
+    | ["obs", "determ", _] => determ := determ + 1
+    | "obs" :: "task" :: t :: _ => tasks := tasks ++ [t]
+    | ["obs", "ret", "deliver", _, res] =>
+      if res != "returned" then
+        r := { r with specs := "ebg_late_event_blocks_delivery: the burst of deliveries did not return within its deadline" :: r.specs }
+    | "obs" :: "panic" :: rest => r := { r with specs := s!"ebg_panic: {" ".intercalate rest}" :: r.specs }
+    | ["obs", "noquiesce"] => r := { r with specs := "ebg_does_not_quiesce: the engine keeps running without input" :: r.specs }
+    | "harness-error" :: rest => r := { r with bad := ("harness-error " ++ " ".intercalate rest) :: r.bad }
+    | _ => pure ()
+  if determ != 1 then
+    r := { r with specs := s!"ebg_burst_not_one_winner: the event of alternative {w} came at the end of a burst of unrelated events while its catch event was listening; {determ} determination(s) were made" :: r.specs }
+  if tasks != [s!"T{w}"] then
+    r := { r with specs := s!"ebg_burst_branch: winner {w}: branch tasks requested {tasks}, expected [T{w}]" :: r.specs }
+  if done != "1" then
+    r := { r with specs := s!"ebg_instance_never_completes: winner {w} (burst), the instance does not complete" :: r.specs }
+  return { r with nontrivial := true }
+
 end Bpmn.Driver.C06
